@@ -268,3 +268,36 @@ Definition check_2013 (fs : list field) : verdict :=
     end
   | _ => VBad 99 []
   end.
+
+(* 2014. the protocol's buffer is unchanged by a read, and a read is a function of the bytes: after ReadAnyWithDesc (success
+   or error) Buf must be the caller's buffer again (same length, same bytes), and a lenient re-read on the SAME protocol
+   object after rewinding must answer what read_any_desc answers on the input. fields: schema.., byname, disallowUnknown of
+   the first read, input, code of the first read, len(Buf), Buf==input, code of the re-read (0 ok, 1 error, 3 panic, 4 foreign
+   type), [value..], bytes left, len(Buf), Buf==input *)
+Definition check_2014 (fs : list field) : verdict :=
+  match parse_schema fs with
+  | None => VBad 98 []
+  | Some (root, SC, FZ bn :: FZ dis :: FB input :: FZ rc1 :: FZ bl1 :: FZ same1 :: FZ rc2 :: rest) =>
+    let byname := negb (bn =? 0) in
+    let fuel := S (length input) in
+    let m1 := read_any_desc SC (negb (dis =? 0)) byname fuel LSingular (TMsg root) false input in
+    let m2 := read_any_desc SC false byname fuel LSingular (TMsg root) false input in
+    vand (expect 1 (Bool.eqb (rc1 =? 0) (match m1 with Some _ => true | None => false end)) [])
+   (vand (expect 2 ((bl1 =? plen input) && (same1 =? 1)) [FZ (plen input)])
+         (if (rc2 =? 3) || (rc2 =? 4) then VBad rc2 [] else
+          if rc2 =? 0 then
+            match parse_gval (S (length rest)) rest, m2 with
+            | Some (g, [FZ nleft; FZ bl2; FZ same2]), Some (gm, r) =>
+              vand (expect 3 (gval_eqv gm g && gval_eqv g gm) [])
+             (vand (expect 4 (plen r =? nleft) [FZ (plen r)]) (expect 5 ((bl2 =? plen input) && (same2 =? 1)) []))
+            | Some _, None => VBad 6 []
+            | _, _ => VBad 99 []
+            end
+          else
+            match rest, m2 with
+            | [FZ _; FZ bl2; FZ same2], None => expect 5 ((bl2 =? plen input) && (same2 =? 1)) []
+            | _, Some _ => VBad 7 []
+            | _, _ => VBad 99 []
+            end))
+  | _ => VBad 99 []
+  end.
